@@ -98,7 +98,7 @@ func (R *HarnessResult) noteAssert(in *Interp, label, verdict string, size int, 
 		R.Asserts[label] = m
 	}
 	m[verdict]++
-	if verdict != "trivially-true" && len(R.Samples) < 400 {
+	if verdict != "trivially-true" && verdict != "shared-prefix" && len(R.Samples) < 400 {
 		R.Samples = append(R.Samples, Sample{Harness: R.Spec.Name, Label: label, Decisions: append([]int{}, in.decisions...),
 			Verdict: verdict, QuerySize: size, Millis: float64(dt.Microseconds()) / 1000})
 	}
@@ -266,8 +266,9 @@ func runHarness(L *Loaded, spec *HarnessSpec, opts *Options, nworkers int) *Harn
 }
 
 func (in *Interp) runPath(entry *ssa.Function, prefix []int, R *HarnessResult) {
+	prev := append([]int{}, in.decisions...)
 	in.reset(prefix)
-	in.sess.ResetPath()
+	in.sess.StartPath(prev, prefix)
 	outcome := "ok"
 	func() {
 		defer func() {
